@@ -329,6 +329,14 @@ func (r *Run) runShards(bin string, n int, timeoutSec int, extraArgs []string, e
 			}
 			args = append(args, extraArgs...)
 			c := exec.Command("timeout", args...)
+			if kib := os.Getenv("VERIF_CHILD_AS_KIB"); kib != "" {
+				// opt-in (tools/mutant.sh, tools/seeded_regress.sh): an address-space limit for the
+				// first run of every child as well, so that a change which makes the library allocate
+				// without bound dies with the Go runtime's own message within seconds instead of
+				// after the kernel's OOM killer has been through the machine. Off in the registered
+				// commands: the limit has only been measured on the quick tier.
+				c = exec.Command("sh", append([]string{"-c", "ulimit -v " + kib + "; exec timeout \"$@\"", "sh"}, args...)...)
+			}
 			c.Dir = r.Work
 			c.Env = append(append([]string{}, r.Env...), extraEnv...)
 			lf, _ := os.Create(logp)
